@@ -1,6 +1,6 @@
 (* C04 - best-so-far never worsens; counters and monitors are faithful.  Statements only. *)
 From Coq Require Import List ZArith QArith Bool.
-From MV Require Import Common.Num Common.Order Core.Machine Core.Machine_Proofs Core.DE Core.DE_Proofs Core.NM.
+From MV Require Import Common.Num Common.Order Core.Machine Core.Machine_Proofs Core.DE Core.DE_Proofs Core.NM Core.NM_Proofs.
 Import ListNotations.
 Open Scope Z_scope.
 
@@ -40,7 +40,7 @@ Print Assumptions C04_evalmon_is_recent_calls.
 Theorem C04_de_history :
   forall (N : Num) (inf : T N), StrictWeak (T N) (ltb N) -> (forall p, is_top N (add N inf p)) -> is_top N inf ->
   forall (npop : nat) (de2 : bool) (ops : list (op N (de_in N))) (sc : sys N * de N),
-  Forall (clean_op N _ (de_ok_in N npop)) ops -> P_de N inf npop (fst sc) (snd sc) ->
+  Forall (clean_op N _ (de_ok_in N npop) false) ops -> P_de N inf npop (fst sc) (snd sc) ->
   let r := run N inf _ _ (de_algo N inf de2) sc ops in
   desc N (map snd (stepmon N (fst r))) /\
   (stepmon N (fst r) <> [] -> snd (last (stepmon N (fst r)) ([], inf)) = snd (de_best N inf (snd r))).
@@ -61,6 +61,21 @@ Proof.
   intros N inf Ho Ht Hi s c i Hinv Hl. pose proof (de_step_honest N inf Ho Ht Hi s c i Hinv Hl) as (_ & _ & H & _). exact H.
 Qed.
 Print Assumptions C04_de_one_record_per_step.
+
+(* Nelder-Mead: in every clean run the last step-monitor record is the reported best solution and energy *)
+Theorem C04_nm_last_record_is_best :
+  forall (N : Num) (inf : T N), (forall p, is_top N (add N inf p)) -> is_top N inf ->
+  forall cons0 : vec N -> vec N, (forall x, cons0 (cons0 x) = cons0 x) ->
+  forall (ops : list (op N (nm_in N))) (sc : sys N * nm N),
+  Forall (clean_op N _ (nm_ok_in N) true) ops -> P_nm N inf cons0 (fst sc) (snd sc) ->
+  let r := run N inf _ _ (nm_algo N inf) sc ops in
+  stepmon N (fst r) <> [] -> sim N (snd r) <> [] ->
+  last (stepmon N (fst r)) ([], inf) = nm_best N inf (snd r).
+Proof.
+  intros N inf Ht Hi cons0 Hid ops sc Hc HP r Hs Hn.
+  exact (proj2 (proj2 (nm_reported_best N inf Ht Hi cons0 Hid ops sc Hc HP Hs Hn))).
+Qed.
+Print Assumptions C04_nm_last_record_is_best.
 
 Example C04_nonvacuous : forall (N : Num) (inf : T N) t, Inv_cnt N (init_sys N inf t) /\ Inv_emon N (init_sys N inf t).
 Proof. intros. pose proof (init_invs N inf t) as (_ & H1 & H2 & _). auto. Qed.
